@@ -9,8 +9,10 @@ TEXT = {
           "the contract stream (real node, every receive predicted, storage compared after each momentum) and model-free "
           "monitors on the real storage and blocks.",
   "design_ref": "§3 C10",
-  "note": "Reward bookkeeping, liquidity and bridge are not in the liability sums; lock periods are parameters "
-          "(theorems hold for all values, production values regenerated from the tree).",
+  "note": "Reward bookkeeping, liquidity reward pools, bridge wrap/fees/administration are outside the models (observed "
+          "outcomes only); lock periods are parameters (theorems hold for all values, production values regenerated from "
+          "the tree); liquidity backing is false of the code once the spork address burns/funds from a balance that "
+          "contains ZNN/QSR stakes (known finding F14, negative witness theorem + stream scenario).",
   "technique": "Lean 4 proof (invariant by induction over receives) + differential replay on a real node + liability monitor",
  },
  "C01": {
